@@ -8,7 +8,7 @@ for d in $IDS; do
   W=/tmp/wt/seedrun_$d_$$
   /verif/tools/mkwt.sh $W >/dev/null 2>&1 || { echo "$d $prop WORKTREE-FAILED"; continue; }
   if ! git -C $W apply /verif/seeded/$d/patch.diff 2>/dev/null; then echo "$d $prop PATCH-CONFLICT"; git -C /repo worktree remove --force $W; continue; fi
-  out=$(NV_REPO=$W ./check $prop quick 2>&1); rc=$?
+  out=$(NV_REPO=$W NV_EVIDENCE_DIR=$W/_evidence ./check $prop quick 2>&1); rc=$?
   git -C /repo worktree remove --force $W
   nv=$(echo "$out" | grep -c "^VIOLATION")
   first=$(echo "$out" | grep -A1 "^VIOLATION" | grep "op=" | head -1 | cut -c1-160)
